@@ -230,4 +230,27 @@ theorem count_take_add (bs : List Nat) (o d : Nat) (h : ∀ i, o ≤ i → i < o
       rw [List.count_cons_of_ne hne]; simp
     · rw [List.take_of_length_le (by omega), List.take_of_length_le (by omega)]
 
+/-- Length of the leading run of non-newline bytes of `r`, characterised by its two ends. -/
+theorem takeWhile_run : ∀ (r : List Nat) (n : Nat), n ≤ r.length → (∀ j, j < n → r[j]? ≠ some 10) →
+    (n = r.length ∨ r[n]? = some 10) → (r.takeWhile (fun b => b != 10)).length = n
+  | [], n, hn, _, _ => by simp at hn; simp [hn]
+  | x :: t, 0, _, _, hend => by
+    rcases hend with e | e
+    · simp at e
+    · simp at e; simp [e]
+  | x :: t, m + 1, hn, hno, hend => by
+    have hx : x ≠ 10 := by
+      have := hno 0 (by omega)
+      simpa using this
+    have hxb : (x != 10) = true := by simp [hx]
+    rw [List.takeWhile_cons, hxb]
+    simp only [if_true, List.length_cons]
+    have := takeWhile_run t m (by simp at hn; omega)
+      (fun j hj => by have := hno (j + 1) (by omega); simpa using this)
+      (by
+        rcases hend with e | e
+        · left; simp at e; omega
+        · right; simpa using e)
+    omega
+
 end TmVerif.SourcePos
